@@ -45,12 +45,14 @@ type sg struct {
 	tmpl      []VarSpec
 	nvar      int
 	mixed     bool
-	stmt      bool   // the next identifier starts a statement (canonical layout: new line)
-	last      []prop // properties of the node emitted last
-	piped     bool   // the previous token was '|': the next identifier names a node
-	cur       string // node (or alert.handler) whose properties are being written
-	fromWhere bool   // the from() node being written already has a .where()
-	law       string // Pipeline unit: "json" | "tick"; the generator avoids what that round trip is known to lose (counted)
+	stmt      bool            // the next identifier starts a statement (canonical layout: new line)
+	last      []prop          // properties of the node emitted last
+	piped     bool            // the previous token was '|': the next identifier names a node
+	cur       string          // node (or alert.handler) whose properties are being written
+	fromWhere bool            // the from() node being written already has a .where()
+	emptyRe   map[string]bool // regex vars whose value is the empty regex (L2)
+	concat    int             // > 0: writing the pieces of a constant string concatenation (L1)
+	law       string          // Pipeline unit: "json" | "tick"; the generator avoids what that round trip is known to lose (counted)
 }
 
 var varNames = []string{"x", "period", "crit", "db", "lambda", "Über", "v", "threshold", "name_1", "w", "data", "idVar", "every", "where_filter"}
@@ -74,7 +76,7 @@ func (s *sg) eg() *eg {
 			bad[v] = classK2
 		}
 	}
-	return &eg{t: s.t, badVars: bad, emptyRe: s.emptyRe, noCalls: s.law == "json", noBigInt: s.law == "json", nonzero: s.law == "tick", count: s.r.Exclude, vars: map[string][]string{
+	return &eg{t: s.t, badVars: bad, emptyRe: s.emptyRe, inConcat: s.concat, noCalls: s.law == "json", noBigInt: s.law == "json", nonzero: s.law == "tick", count: s.r.Exclude, vars: map[string][]string{
 		"num":  append(append([]string{}, s.vars["int"]...), append(s.vars["float"], s.vars["lnum"]...)...),
 		"bool": append(append([]string{}, s.vars["bool"]...), s.vars["lbool"]...),
 		"str":  s.vars["str"],
@@ -128,7 +130,9 @@ func (s *sg) argStr() {
 		return
 	}
 	if s.pick(12, "strExpr") == 0 {
+		s.concat++
 		e := &Expr{K: "bin", Op: "+", A: []*Expr{s.eg().strLit(), s.eg().strLit()}}
+		s.concat--
 		s.o.label("arg:inline-expr")
 		s.o.expr(e)
 		return
@@ -392,7 +396,8 @@ func (s *sg) call(name, kinds string) {
 // families J2 and T2). The generator does not write them for that law and counts each avoided draw.
 var unsupported = map[string]map[string]string{
 	"json": {
-		"|elapsed": "J11 pipeline JSON: MarshalJSON replaces the duration arguments of the live elapsed/holtWinters node by strings (marshalling changes the pipeline)", "|holtWinters": "J11 pipeline JSON: MarshalJSON replaces the duration arguments of the live elapsed/holtWinters node by strings (marshalling changes the pipeline)", "|holtWintersWithFit": "J11 pipeline JSON: MarshalJSON replaces the duration arguments of the live elapsed/holtWinters node by strings (marshalling changes the pipeline)",
+		"|elapsed":     "J8 pipeline JSON: InfluxQL function nodes with parameters (percentile, top/bottom, movingAverage, elapsed, holtWinters) are read back with zero parameters in their reducers (only the args list is restored)",
+		"|holtWinters": "J11 pipeline JSON: MarshalJSON replaces the duration arguments of the live elapsed/holtWinters node by strings (marshalling changes the pipeline)", "|holtWintersWithFit": "J11 pipeline JSON: MarshalJSON replaces the duration arguments of the live elapsed/holtWinters node by strings (marshalling changes the pipeline)",
 		"~child-of-shadowing-node": "J10 pipeline JSON: children of combine / k8sAutoscale cannot be read back (a struct field named like a chain method, Max/Min, makes the node fail the chain-node interface check)",
 		"|percentile":              "J8 pipeline JSON: InfluxQL function nodes with parameters (percentile, top/bottom, movingAverage, elapsed, holtWinters) are read back with zero parameters in their reducers (only the args list is restored)", "|movingAverage": "J8 pipeline JSON: InfluxQL function nodes with parameters (percentile, top/bottom, movingAverage, elapsed, holtWinters) are read back with zero parameters in their reducers (only the args list is restored)",
 		"|top":           "J8 pipeline JSON: InfluxQL function nodes with parameters (percentile, top/bottom, movingAverage, elapsed, holtWinters) are read back with zero parameters in their reducers (only the args list is restored)",
@@ -561,7 +566,10 @@ func (s *sg) constStr(d int) *Expr {
 	if d <= 0 || s.pick(3, "csLeaf") == 0 {
 		return g.strLit()
 	}
-	return g.paren(&Expr{K: "bin", Op: "+", A: []*Expr{s.constStr(d - 1), s.constStr(d - 1)}})
+	s.concat++
+	l, r := s.constStr(d-1), s.constStr(d-1)
+	s.concat--
+	return g.paren(&Expr{K: "bin", Op: "+", A: []*Expr{l, r}})
 }
 
 func (s *sg) constBool(d int) *Expr {
@@ -690,7 +698,11 @@ func (s *sg) declStatement() {
 	case 4:
 		s.declare("bool", func() { s.argBool() })
 	case 5:
-		s.declare("re", func() { s.o.expr(g.regex(true)) })
+		re := g.regex(true)
+		name := s.declare("re", func() { s.o.expr(re) })
+		if re.V == "" {
+			s.emptyRe[name] = true
+		}
 	case 6:
 		s.declare("list", func() {
 			n := rapid.IntRange(2, 2).Draw(s.t, "listN")
@@ -764,6 +776,9 @@ func (s *sg) templateDecl() {
 	case "regex":
 		v.Val = rapid.SampledFrom(regexPool).Draw(s.t, "tmplRe")
 		s.vars["re"] = append(s.vars["re"], name)
+		if v.Val == "" {
+			s.emptyRe[name] = true
+		}
 	case "duration":
 		v.Val = strconv.FormatInt(int64(rapid.SampledFrom([]int64{0, 1000, 1500000, 1e9, 90e9, 3600e9, -5e9}).Draw(s.t, "tmplDur")), 10)
 		if v.Val == "0" && s.law == "tick" {
@@ -1228,7 +1243,7 @@ func genScript(r *kit.Rec, t *rapid.T, law string) ScriptCase {
 		// layout is the Script unit's subject
 		noise, comments = 0, rapid.IntRange(0, 3).Draw(t, "comments") == 0
 	}
-	s := &sg{r: r, t: t, o: newOut(t, noise, comments), vars: map[string][]string{}, law: law}
+	s := &sg{r: r, t: t, o: newOut(t, noise, comments), vars: map[string][]string{}, law: law, emptyRe: map[string]bool{}}
 	s.o.exclude = r.Exclude
 	s.edge = rapid.SampledFrom([]string{"stream", "stream", "batch"}).Draw(t, "edge")
 	if rapid.IntRange(0, 9).Draw(t, "dbrp") == 0 {
